@@ -309,6 +309,8 @@ class Ctx:
                 return self.lambdas[n]['ret']
             if n in self.methods:
                 return self.methods[n].ret
+            if n + '/' + str(len(a)) in self.funcs:
+                return self.funcs[n + '/' + str(len(a))].ret
             if n in self.funcs:
                 return self.funcs[n].ret
             if n in self.env and self.strip_ref(self.env[n]) in self.callops:
@@ -749,9 +751,9 @@ class Ctx:
                     self.count_call(fi.cname)
                     return '%s(%s)' % (fi.cname, ', '.join([self.em_addr(f)] + [self.em_arg(x, fi.params[i_] if fi.params and i_ < len(fi.params) else None) for i_, x in enumerate(a)]))
                 if t.startswith('Fn:'):
-                    # callback parameter (in/out functors): rendered by the unit's binding
+                    # callback parameter (in/out functors): rendered by the unit's binding 'Fn:CALLEE@ARGUMENT-RENDERING'
                     self.fire('callback')
-                    cn = t[3:]
+                    cn = t[3:].split('@')[0]
                     self.count_call(cn.split('(')[0])
                     return '%s(%s)' % (cn, self.em_args(a))
             if n in self.methods:
@@ -772,11 +774,20 @@ class Ctx:
                     args.append(self.em_arg(x, fi.params[i_] if fi.params and i_ < len(fi.params) else None))
                 s = '%s(%s)' % (fi.cname, ', '.join(([] if fi.static else [self.selfname]) + pre_args + args))
                 return '(*%s)' % s if fi.ref else s
-            if n in self.funcs:
-                fi = self.funcs[n]
+            if n + '/' + str(len(a)) in self.funcs or n in self.funcs:
+                fi = self.funcs.get(n + '/' + str(len(a))) or self.funcs[n]
                 self.fire('function_call')
                 self.count_call(fi.cname)
-                return '%s(%s)' % (fi.cname, self.em_args(a))
+                args = []
+                for x in a:
+                    if x[0] == 'id' and self.env.get(x[1], '').startswith('Fn:'):
+                        # a functor passed on: rendered as the bound argument (dropped when the binding has none)
+                        r = self.env[x[1]].split('@')[1] if '@' in self.env[x[1]] else ''
+                        if r:
+                            args.append(r)
+                        continue
+                    args.append(self.em(x))
+                return '%s(%s)' % (fi.cname, ', '.join(args))
             full = n + ('<' + targs + '>' if targs else '')
             t = self.itype(full)
             if (t in SCALARS or n in self.typemap or full in self.typemap or n in BUILTIN_TYPES) and len(a) == 1:
@@ -1193,6 +1204,11 @@ class Ctx:
         cfg = getattr(self, 'lambda_cfg', {}).get(name)
         if cfg is None:
             raise ExtractionBreak('local lambda %s is not described by the unit' % name)
+        if 'alias' in cfg:
+            # a forwarding lambda ([in](auto j){ return in(j); }) is identified with the functor binding it forwards to
+            self.fire('lambda_alias')
+            self.env[name] = cfg['alias']
+            return ''
         self.fire('lambda_lift')
         sub = Ctx(cls=self.cls, fields=self.fields, methods=self.methods, structs=self.structs, struct_methods=self.struct_methods,
                   funcs=self.funcs, ops=self.ops, callops=self.callops, conv=self.conv, typemap=self.typemap, consts=self.consts,
